@@ -342,7 +342,15 @@ def _sse_typestate(fn: Function, rep: Report) -> None:
         ev = n.ast.targets[0].id
         ynodes = {m.id for m in cfg.nodes if m.ast is not None and m.kind == "stmt" and any(
             isinstance(y, ast.Yield) and isinstance(y.value, ast.Name) and y.value.id == ev for y in ast.walk(m.ast))}
-        tests = {m.id for m in cfg.nodes if m.kind == "test" and isinstance(m.ast, ast.Name) and m.ast.id == ev}
+        def _about_event(t: ast.AST) -> bool:
+            """`if event:` / `if event is not None:` / `if not event: ...` - a test of nothing but the parsed event"""
+            tv = truthiness(t)
+            if tv is not None and isinstance(tv[0], ast.Name) and tv[0].id == ev:
+                return True
+            return isinstance(t, ast.Compare) and len(t.ops) == 1 and isinstance(t.ops[0], (ast.Is, ast.IsNot)) and isinstance(t.left, ast.Name) and t.left.id == ev \
+                and isinstance(t.comparators[0], ast.Constant) and t.comparators[0].value is None
+
+        tests = {m.id for m in cfg.nodes if m.kind == "test" and m.ast is not None and _about_event(m.ast)}
         saved = {t: list(cfg.succ[t]) for t in tests}
         for t in tests:
             cfg.succ[t] = [(m, lab) for m, lab in cfg.succ[t] if lab != "false"]
@@ -446,7 +454,9 @@ def _parse_event_rules(fn: Function, rep: Report) -> None:
         for c in muts:
             n = [x for x in cfg.nodes if x.ast is not None and x.kind == "stmt" and any(cc is c for cc in calls_in(x.ast))][0]
             guards = [cfg.nodes[d] for d in dom[n.id] if cfg.nodes[d].kind == "test"]
-            g_ok = any(isinstance(g.ast, ast.Compare) and len(g.ast.ops) == 1 and isinstance(g.ast.ops[0], ast.Eq)
+            cases = [cfg.nodes[d] for d in dom[n.id] if cfg.nodes[d].kind == "case"]
+            case_ok = any(isinstance(getattr(cn.ast, "pattern", None), ast.MatchValue) and const_str(cn.ast.pattern.value) == "data" for cn in cases)
+            g_ok = case_ok or any(isinstance(g.ast, ast.Compare) and len(g.ast.ops) == 1 and isinstance(g.ast.ops[0], ast.Eq)
                        and "data" in (const_str(g.ast.comparators[0]), const_str(g.ast.left)) for g in guards)
             if g_ok:
                 rep.ok("R18.3", sub0 + " data order", "values appended in arrival order under `field == \"data\"`", fn.loc(c))
